@@ -7,7 +7,9 @@ import zoneinfo
 
 from .. import refval
 
-ZONES = ['UTC', 'America/New_York', 'Europe/London', 'Asia/Kolkata', 'Asia/Kathmandu', 'Australia/Lord_Howe', 'Pacific/Chatham', 'Etc/GMT+12']
+# the eight zones of the property's quantifier plus two with NEGATIVE offsets that are not whole hours (-03:30/-02:30 with DST, -09:30)
+ZONES = ['UTC', 'America/New_York', 'Europe/London', 'Asia/Kolkata', 'Asia/Kathmandu', 'Australia/Lord_Howe', 'Pacific/Chatham', 'Etc/GMT+12',
+         'America/St_Johns', 'Pacific/Marquesas']
 TD = datetime.timedelta
 DT = datetime.datetime
 
